@@ -409,3 +409,28 @@ func boundsProof(e *Engine, outs []Outcome, in ssa.Instruction) (n int, ok bool,
 	}
 	return n, ok, how, ""
 }
+
+// refutes reports whether the conditions conds make c impossible (linear
+// integer arithmetic, at most two facts).
+func (e *Engine) refutes(conds []*BoolVal, c *BoolVal) bool {
+	if c == nil || c.Const != nil {
+		return false
+	}
+	neg := e.factsOf([]*BoolVal{c.Not()})
+	if len(neg) == 0 {
+		return false
+	}
+	facts := e.factsOf(conds)
+	// c is refuted when every way of c.Not() holding... c.Not() is a
+	// conjunction of the facts in neg (1 for orderings, 2 for ==): c is
+	// impossible iff all of them follow from the path
+	if c.Op == "!=" {
+		return false // c.Not() is an equality: both directions must follow
+	}
+	for _, n := range neg {
+		if ok, _ := e.proveGE0(n.D, facts); !ok {
+			return false
+		}
+	}
+	return true
+}
